@@ -35,7 +35,20 @@ type Engine struct {
 	measures    map[string][]*measure
 	keyPrefixes map[string]int
 	specErrors  []string
+	siteOrds    map[*ssa.Function]map[ssa.Instruction]string
 	loadSecs    float64
+	pruneDir    string
+}
+
+func (e *Engine) bigIntType() types.Type {
+	for _, p := range e.prog.AllPackages() {
+		if p.Pkg.Path() == "math/big" {
+			if tn, ok := p.Pkg.Scope().Lookup("Int").(*types.TypeName); ok {
+				return tn.Type()
+			}
+		}
+	}
+	return nil
 }
 
 func (e *Engine) specError(msg string) {
@@ -53,7 +66,7 @@ func NewEngine(repoDir, assumedDir string, patterns []string) (*Engine, error) {
 	t0 := time.Now()
 	e := &Engine{repoDir: repoDir, modPath: vipnodeMod, st: NewSortTable(),
 		loops: map[*ssa.Function]map[*ssa.BasicBlock]*loopInfo{}, dbgRefs: map[*ssa.Function]map[string][]*ssa.DebugRef{},
-		globalIDs: map[*ssa.Global]int{}, strLits: map[string]string{}, typeTags: map[string]int{}, measures: map[string][]*measure{}, keyPrefixes: map[string]int{}}
+		globalIDs: map[*ssa.Global]int{}, strLits: map[string]string{}, typeTags: map[string]int{}, measures: map[string][]*measure{}, keyPrefixes: map[string]int{}, siteOrds: map[*ssa.Function]map[ssa.Instruction]string{}}
 	absRepo, _ := filepath.Abs(repoDir)
 	cfg := &packages.Config{
 		Mode:       packages.LoadAllSyntax,
@@ -176,9 +189,9 @@ type Options struct {
 }
 
 // Verify symbolically executes fn against its contract and collects obligations.
-func (e *Engine) Verify(fn *ssa.Function, ct *Contract, props []string, opt Options) *VC {
-	vc := &VC{eng: e, fn: fn, contract: ct, props: props, declSet: map[string]bool{}, notes: map[string]bool{}, used: map[string]bool{},
-		oblCount: map[string]int{}, valueLabels: map[string]string{}, maxPaths: opt.MaxPaths, inlineDepth: opt.InlineDepth, lets: map[string]SV{}, key: opt.Key}
+func (e *Engine) Verify(fn *ssa.Function, ct *Contract, props []string, opt Options) (vc *VC) {
+	vc = &VC{eng: e, fn: fn, contract: ct, props: props, declSet: map[string]bool{}, notes: map[string]bool{}, used: map[string]bool{},
+		valueLabels: map[string]string{}, maxPaths: opt.MaxPaths, inlineDepth: opt.InlineDepth, lets: map[string]SV{}, key: opt.Key}
 	if ct != nil {
 		vc.safety = ct.Safety
 	}
@@ -204,6 +217,7 @@ func (e *Engine) Verify(fn *ssa.Function, ct *Contract, props []string, opt Opti
 			panic(r)
 		}
 	}()
+	e.pruneDir = opt.WorkDir
 	if fn.Blocks == nil {
 		vc.refused = "function has no body"
 		return vc
@@ -279,6 +293,12 @@ func (e *Engine) Verify(fn *ssa.Function, ct *Contract, props []string, opt Opti
 			vc.valueLabels[strings.Join(strings.Fields(v.V.S), " ")] = w.Name
 		}
 	}
+	tExplore := time.Now()
+	defer func() {
+		if os.Getenv("VERIF_TIMING") != "" {
+			fmt.Fprintf(os.Stderr, "timing: explore %s: %.1fs, %d paths, %d prune calls (%d pruned), %d obligations\n", fn.Name(), time.Since(tExplore).Seconds(), vc.npaths, vc.nprune, vc.npruned, len(vc.obls))
+		}
+	}()
 	vc.entry = st.snapshot()
 	// vacuity: the precondition must be satisfiable
 	vc.cover(st, "cover@entry", vc.posOf(fn.Pos()))
@@ -291,6 +311,12 @@ func (e *Engine) Verify(fn *ssa.Function, ct *Contract, props []string, opt Opti
 // discharge
 
 func Discharge(obls []*Obligation, opt Options) {
+	tStart := time.Now()
+	defer func() {
+		if os.Getenv("VERIF_TIMING") != "" {
+			fmt.Fprintf(os.Stderr, "timing: discharge %d obligations in %.1fs\n", len(obls), time.Since(tStart).Seconds())
+		}
+	}()
 	var wg sync.WaitGroup
 	ch := make(chan *Obligation)
 	workers := 16
@@ -302,12 +328,84 @@ func Discharge(obls []*Obligation, opt Options) {
 		go func() {
 			defer wg.Done()
 			for o := range ch {
+				if o.MustFail {
+					// vacuity cover: only "unsat" matters (it would mean a contradictory path); a short single run
+					file := filepath.Join(opt.WorkDir, sanitize(fmt.Sprintf("%s_p%d", o.Name, o.Path))+".smt2")
+					os.WriteFile(file, []byte(o.Script), 0o644)
+					ans, out, secs := runSolver(solvers[0], file, 2, opt.Seed)
+					o.Result = SolveResult{Answer: ans, Solver: "z3-new", Seconds: secs, Output: out}
+					if ans == "error" {
+						o.Result.Answer = "unknown"
+					}
+					continue
+				}
 				o.Result = solve(opt.WorkDir, fmt.Sprintf("%s_p%d", o.Name, o.Path), o.Script, opt.Timeout, opt.Seed, opt.Tier == "thorough" && !o.MustFail)
+				if !o.MustFail && (o.Result.Answer == "timeout" || o.Result.Answer == "unknown") {
+					// no model: look for a candidate input with the quantified assumptions dropped.
+					// The candidate may be spurious; only a replay on the real code can confirm it.
+					if cand := candidateModel(opt.WorkDir, o, opt.Seed); cand != nil {
+						o.Result.Model = cand
+						o.Candidate = true
+					}
+				}
 			}
 		}()
 	}
 	// stable order
 	sort.SliceStable(obls, func(i, j int) bool { return obls[i].Name < obls[j].Name })
+	// phase 1: groups (all postconditions of one return path) as one conjunction
+	groups := map[string][]*Obligation{}
+	var gkeys []string
+	for _, o := range obls {
+		if o.Result.Answer == "" && o.Group != "" && !o.MustFail {
+			if _, ok := groups[o.Group]; !ok {
+				gkeys = append(gkeys, o.Group)
+			}
+			groups[o.Group] = append(groups[o.Group], o)
+		}
+	}
+	if len(gkeys) > 0 {
+		var gw sync.WaitGroup
+		gch := make(chan string)
+		for w := 0; w < workers; w++ {
+			gw.Add(1)
+			go func() {
+				defer gw.Done()
+				for k := range gch {
+					members := groups[k]
+					if len(members) < 2 {
+						continue
+					}
+					var goals []string
+					for _, m := range members {
+						goals = append(goals, m.Goal)
+					}
+					script := members[0].Prefix + scriptGoal("(and "+strings.Join(goals, " ")+")", nil)
+					r := solve(opt.WorkDir, "group_"+k, script, opt.Timeout, opt.Seed, opt.Tier == "thorough")
+					if r.Answer == "unsat" {
+						for _, m := range members {
+							m.Result = r
+							m.Result.Seconds = r.Seconds / float64(len(members))
+						}
+					}
+				}
+			}()
+		}
+		for _, k := range gkeys {
+			gch <- k
+		}
+		close(gch)
+		gw.Wait()
+		if os.Getenv("VERIF_TIMING") != "" {
+			n := 0
+			for _, o := range obls {
+				if o.Result.Answer == "" {
+					n++
+				}
+			}
+			fmt.Fprintf(os.Stderr, "timing: %d groups in %.1fs, %d obligations left\n", len(gkeys), time.Since(tStart).Seconds(), n)
+		}
+	}
 	for _, o := range obls {
 		if o.Result.Answer != "" {
 			continue
@@ -316,4 +414,35 @@ func Discharge(obls []*Obligation, opt Options) {
 	}
 	close(ch)
 	wg.Wait()
+}
+
+// candidateModel re-solves an undecided obligation without its quantified assumptions.
+func candidateModel(workdir string, o *Obligation, seed int) map[string]string {
+	var b strings.Builder
+	lines := strings.Split(o.Script, "\n")
+	for i, ln := range lines {
+		last := false
+		// the goal is the last assert before (check-sat)
+		for j := i + 1; j < len(lines); j++ {
+			if strings.HasPrefix(lines[j], "(assert") {
+				break
+			}
+			if strings.HasPrefix(lines[j], "(check-sat") {
+				last = true
+				break
+			}
+		}
+		if strings.HasPrefix(ln, "(assert") && strings.Contains(ln, "(forall ") && !last {
+			continue
+		}
+		b.WriteString(ln)
+		b.WriteByte('\n')
+	}
+	file := filepath.Join(workdir, sanitize(fmt.Sprintf("%s_p%d", o.Name, o.Path))+".cand.smt2")
+	os.WriteFile(file, []byte(b.String()), 0o644)
+	ans, out, _ := runSolver(solvers[0], file, 5, seed)
+	if ans != "sat" {
+		return nil
+	}
+	return parseModel(out)
 }
